@@ -27,7 +27,7 @@ pub fn run(args: &Args) -> Out {
             if let Some((s, c)) = replay_case {
                 cache_case(s, c, &mut out);
             } else {
-                for idx in 0..args.n(96_000, 2_400_000) {
+                for idx in 0..args.n(480_000, 4_800_000) {
                     if args.mine(idx) {
                         cache_case(args.seed, idx, &mut out);
                     }
@@ -38,7 +38,7 @@ pub fn run(args: &Args) -> Out {
             if let Some((s, c)) = replay_case {
                 engine_case(s, c, &mut out);
             } else {
-                for idx in 0..args.n(32_000, 640_000) {
+                for idx in 0..args.n(160_000, 1_280_000) {
                     if args.mine(idx) {
                         engine_case(args.seed, idx, &mut out);
                     }
@@ -50,7 +50,7 @@ pub fn run(args: &Args) -> Out {
             if let Some((s, c)) = replay_case {
                 schedule_case(s, c, &mut out);
             } else {
-                for idx in 0..args.n(24_000, 960_000) {
+                for idx in 0..args.n(96_000, 960_000) {
                     if args.mine(idx) {
                         schedule_case(args.seed, idx, &mut out);
                     }
